@@ -196,3 +196,38 @@ def sany(module, cwd=None):
     cmd = ['java', '-cp', classpath(), 'tla2sany.SANY', module + '.tla']
     p = subprocess.run(cmd, cwd=cwd or SPEC_DIR, stdout=subprocess.PIPE, stderr=subprocess.STDOUT)
     return p.returncode == 0 and b'Semantic errors' not in p.stdout and b'rror' not in p.stdout, p.stdout.decode()
+
+
+def validate_records(module, cfg_lines, workdir, records, chunk=12000, parallel=4, timeout=3000, tag='trace'):
+    """Trace validation of many independent records: the ndjson is split into chunks that are judged by
+    concurrent TLC runs (a JVM deserialises a 100 MB trace slowly and evaluates it on one core).
+    `records`: list of JSON-able dicts.  -> {0-based record index: the printed tuple after <<"V", tid, ...>>}"""
+    import json, concurrent.futures as cf
+    cfgp = os.path.join(workdir, '%s_%s.cfg' % (tag, module))
+    with open(cfgp, 'w') as f:
+        f.write('\n'.join(cfg_lines) + '\n')
+    parts = [(a, records[a:a + chunk]) for a in range(0, len(records), chunk)] or [(0, [])]
+
+    def one(part):
+        a, recs = part
+        tf = os.path.join(workdir, '%s_%s_%d.ndjson' % (tag, module, a))
+        with open(tf, 'w') as f:
+            for r in recs:
+                f.write(json.dumps(r) + '\n')
+        sub = os.path.join(workdir, '%s_part_%d' % (tag, a))
+        r = run(module, cfgp, sub, env={'TRACE_FILE': tf}, timeout=timeout, workers=2)
+        os.remove(tf)
+        out = {}
+        for p in r.prints:
+            if p and p[0] == 'V':
+                out[a + p[1] - 1] = tuple(p[2:])
+        if len(out) != len(recs):
+            raise TlcError('%s evaluated %d of %d records of chunk %d\n%s' % (module, len(out), len(recs), a, r.stdout[-2500:]))
+        return out
+    res = {}
+    if not records:
+        return res
+    with cf.ThreadPoolExecutor(parallel) as ex:
+        for o in ex.map(one, parts):
+            res.update(o)
+    return res
